@@ -340,6 +340,8 @@ def flush(r, reqs, pend):
 
 
 def declare(r):
+    import common
+    r.extra["repo_under_test"] = common.REPO
     r.assumptions[:] = [
         "hand model (Model/Trim.lean) tied to zonal._trim/_crop/trim/crop by the correspondence run only",
         "the model follows the code as repaired by fixes/D5-trim-nan-aware-exclusion.patch and "
